@@ -21,7 +21,9 @@ P = hs.params()
 GRAMMARS = {
     'ab': 'start: "a" "b"+ "c"? | "a"\n%ignore " "\n',
     'kwassign': 'start: NAME "=" NUM | "if" NAME\nNAME: /[a-z]+/\nNUM: /[0-9]+/\n%ignore /[ \\n]+/\n',
-    'nested': 'start: item+\nitem: "(" item* ")" | W\nW: /[a-z]/\n%ignore " "\n',
+    'nested': 'start: item+\nitem: "(" item* ")" | W\nW: /[a-z]/\n%ignore /[ \\n]/\n',
+    # overlapping start terminals: a proper suffix of the first token of a failed attempt begins a valid match
+    'overlap': 'start: AB "c" | B "d" | "a" "a"\nAB: "ab"\nB: "b"\n%ignore " "\n',
     'nullable': 'start: item*\nitem: "<" W? ">"\nW: /[a-z]+/\n%ignore /[ \\n]/\n',
 }
 
@@ -35,6 +37,7 @@ if P:
     BYTES = P.get('bytes', False)
     L = P['L']
     PIN = P.get('pin')
+    WINDOWS = P.get('windows', True)
     LARK = Lark(GRAMMARS[GNAME], parser='lalr', lexer=LEXER, use_bytes=BYTES, propagate_positions=True)
     BLEX = hs.basic_lexer_of(LARK)
     PART = alpha.partition(alpha.terminal_patterns(LARK), universe=range(256) if BYTES else range(0x250), is_bytes=BYTES)
@@ -85,7 +88,7 @@ def _same_tokenisation(text, p, e, b):
 def _body(rec, cs, a, b, whole):
     n = hs.pick(len(cs), 0, L)
     text = hs.class_string(cs, REPS, use_bytes=BYTES)
-    if whole:
+    if whole or not WINDOWS:
         a, b = 0, n
         arg = text
     else:
@@ -160,12 +163,12 @@ def check(cs: List[int], a: int, b: int, whole: bool) -> bool:
 
 def plan(tier, seed):
     quick = tier == 'quick'
-    Ks = {'ab': 5, 'kwassign': 10, 'nested': 5, 'nullable': 6}
+    Ks = {'ab': 5, 'kwassign': 10, 'nested': 6, 'nullable': 6, 'overlap': 6}
     slices = []
     for g, k in Ks.items():
         for lexer in ('basic', 'contextual'):
-            for by in ((False, True) if g in ('ab', 'nullable') else (False,)):
-                Lg = 3 if quick else (4 if k > 8 else 5)
+            for by in ((False, True) if g in ('ab', 'nullable') and (not quick or lexer == 'basic') else (False,)):
+                Lg = (2 if k > 8 else 3) if quick else (4 if k > 8 else 5)
                 n = sum((k ** i) * (1 + (i + 1) * (i + 2) // 2) for i in range(Lg + 1))
                 pins = [None] if n * 0.05 < (90 if quick else 1500) else list(range(k))
                 for pin in pins:
@@ -173,6 +176,14 @@ def plan(tier, seed):
                     slices.append({'id': '%s:%s:%s:L%d%s' % (g, lexer, 'bytes' if by else 'str', Lg, '' if pin is None else ':pin%d' % pin), 'mode': 'realised',
                                    'params': {'g': g, 'lexer': lexer, 'bytes': by, 'L': Lg, 'pin': pin}, 'timeout': int(est * 3 + 60),
                                    'twin': pin in (None, k - 1), 'bound': {'chars': Lg, 'classes': k, 'windows': 'all [a, b)'}})
+    # longer whole texts (no windows): over-reads that cross a newline before failing need 4-5 characters
+    for g in (('nested', 'overlap') if quick else ('nested', 'overlap', 'nullable')):
+        k = Ks[g]
+        Lw = 4 if quick else 6
+        for pin in range(k):
+            slices.append({'id': '%s:contextual:str:L%d:whole:pin%d' % (g, Lw, pin), 'mode': 'realised',
+                           'params': {'g': g, 'lexer': 'contextual', 'bytes': False, 'L': Lw, 'pin': pin, 'windows': False}, 'timeout': 600 if quick else 3000,
+                           'twin': False, 'bound': {'chars': Lw, 'classes': k, 'windows': 'whole text only'}})
     meta = {
         'rule': 'one path per (class-string, window or whole text); non-trivial = at least one match',
         'technique': 'CrossHair solver-closed enumeration of class-strings and TextSlice windows (symbolic ints), realised; the property itself evaluated with parse() on substrings',
